@@ -209,9 +209,13 @@ def vfile_deps(vfile, seen=None):
         return seen
     seen.add(vfile)
     src = strip_comments(open(vfile).read())
-    for m in re.finditer(r"From\s+OV\s+Require\s+(?:Import|Export)?\s*([^.]*(?:\.[A-Za-z_][^.\s]*)*)\.", src):
+    for m in re.finditer(r"From\s+OV\s+Require\s+(?:Import\s+|Export\s+)?((?:[A-Za-z_][\w']*(?:\.[A-Za-z_][\w']*)*\s*)+)\.", src):
         for mod in m.group(1).split():
             p = os.path.join(COQDIR, mod.replace(".", "/") + ".v")
+            vfile_deps(p, seen)
+    for m in re.finditer(r"Require\s+(?:Import\s+|Export\s+)?((?:OV\.[\w'.]+\s*)+)\.", src):
+        for mod in m.group(1).split():
+            p = os.path.join(COQDIR, mod[3:].replace(".", "/") + ".v")
             vfile_deps(p, seen)
     return seen
 
